@@ -51,9 +51,13 @@ type slStep struct {
 }
 
 type slHistory struct {
-	NVars int      `json:"vars"`
-	Elem  string   `json:"element_type"`
-	Steps []slStep `json:"steps"`
+	NVars int `json:"vars"`
+	// NRows further variables are the rows g[0..NRows-1] of a slice of slices (made with make or grown from
+	// nil): nil rows that still carry the element type
+	NRows   int      `json:"rows,omitempty"`
+	RowInit int      `json:"row_init,omitempty"`
+	Elem    string   `json:"element_type"`
+	Steps   []slStep `json:"steps"`
 }
 
 type slGen struct {
@@ -90,6 +94,13 @@ func c11ProbeExpr(elem, name string) string {
 		return name + "[0]+200"
 	}
 	return name + "[0]/2"
+}
+
+func c11Name(h slHistory, i int) string {
+	if i >= h.NVars {
+		return fmt.Sprintf("g[%d]", i-h.NVars)
+	}
+	return fmt.Sprintf("s%d", i)
 }
 
 func (g *slGen) shared(i int) bool {
@@ -141,12 +152,12 @@ func (g *slGen) step() {
 	n := len(g.vars)
 	k := g.r.Intn(n)
 	j := g.r.Intn(n)
-	name := func(i int) string { return fmt.Sprintf("s%d", i) }
+	name := func(i int) string { return c11Name(g.h, i) }
 	switch c := g.r.Intn(24); {
 	case c < 2: // make
 		ln := g.r.Intn(5)
 		if g.r.Chance(1, 3) {
-			ln = g.r.Range(5, 20) // beyond small-size thresholds
+			ln = g.r.Range(5, 40) // beyond small-size thresholds
 		}
 		g.vars[k] = slView{arr: &slArray{data: make([]int, ln)}, ln: ln, cp: ln, capKnown: true}
 		g.add(fmt.Sprintf("%s = make([]%s, %d)", name(k), g.h.Elem, ln))
@@ -154,6 +165,9 @@ func (g *slGen) step() {
 		ln := g.r.Intn(5)
 		if g.r.Chance(1, 5) {
 			ln = g.r.Range(5, 12)
+			if g.r.Chance(1, 3) {
+				ln = g.r.Range(13, 48) // long literals: capacity == length whatever the allocator rounds to
+			}
 		}
 		a := &slArray{}
 		var lits []string
@@ -272,7 +286,9 @@ func (g *slGen) step() {
 		for i := 0; i < cnt; i++ {
 			dst.arr.data[dst.off+i] = tmp[i]
 		}
-		if g.r.Bool() {
+		if g.r.Chance(1, 3) {
+			g.add(fmt.Sprintf("println(\"n\", cp(%s, %s))", name(k), name(j)), fmt.Sprintf("n %d", cnt))
+		} else if g.r.Bool() {
 			g.add(fmt.Sprintf("println(\"n\", copy(%s, %s))", name(k), name(j)), fmt.Sprintf("n %d", cnt))
 		} else {
 			g.add(fmt.Sprintf("copy(%s, %s)", name(k), name(j)))
@@ -298,7 +314,7 @@ func (g *slGen) step() {
 func (g *slGen) failStep() {
 	k := g.r.Intn(len(g.vars))
 	v := g.vars[k]
-	name := fmt.Sprintf("s%d", k)
+	name := c11Name(g.h, k)
 	var stmt string
 	switch g.r.Intn(6) {
 	case 0:
@@ -326,7 +342,10 @@ func c11Gen(seed int64, idx int) slHistory {
 	n := g.r.Range(3, 7)
 	g.h.NVars = n
 	g.h.Elem = core.Pick(g.r, []string{"int", "int", "float64", "uint8"})
-	for i := 0; i < n; i++ {
+	if g.r.Chance(1, 3) {
+		g.h.NRows, g.h.RowInit = g.r.Range(1, 3), g.r.Intn(3)
+	}
+	for i := 0; i < n+g.h.NRows; i++ {
 		g.vars = append(g.vars, slView{isNil: true})
 	}
 	steps := g.r.Range(12, 40)
@@ -346,18 +365,30 @@ func c11Script(h slHistory) string {
 	}
 	fmt.Fprintf(&sb, "func pack(xs ...%s) []%s {\n\treturn xs\n}\n\n", h.Elem, h.Elem)
 	fmt.Fprintf(&sb, "func lit9() []%s {\n\treturn []%s{1, 2, 3, 4, 5, 6, 7, 8, 9}\n}\n\n", h.Elem, h.Elem)
+	fmt.Fprintf(&sb, "func cp(dst []%s, src []%s) int {\n\treturn copy(dst, src)\n}\n\n", h.Elem, h.Elem)
 	fmt.Fprintf(&sb, "func hist(z int) {\n\tvar t []%s\n\tvar w %s\n\t_, _ = t, w\n", h.Elem, h.Elem)
 	for i := 0; i < h.NVars; i++ {
 		fmt.Fprintf(&sb, "\tvar s%d []%s\n", i, h.Elem)
+	}
+	if h.NRows > 0 {
+		switch h.RowInit {
+		case 0:
+			fmt.Fprintf(&sb, "\tg := make([][]%s, %d)\n", h.Elem, h.NRows)
+		case 1:
+			fmt.Fprintf(&sb, "\tvar g [][]%s\n\tfor len(g) < %d {\n\t\tg = append(g, nil)\n\t}\n", h.Elem, h.NRows)
+		default:
+			fmt.Fprintf(&sb, "\tg := [][]%s{%s}\n", h.Elem, strings.TrimSuffix(strings.Repeat("nil, ", h.NRows), ", "))
+		}
 	}
 	for si, st := range h.Steps {
 		fmt.Fprintf(&sb, "\tprintln(\"#\", %d)\n\t%s\n", si, st.Stmt)
 		if st.Fails {
 			break
 		}
-		for i := 0; i < h.NVars; i++ {
-			fmt.Fprintf(&sb, "\tprintln(\"s%d\", s%d, len(s%d), s%d == nil)\n", i, i, i, i)
-			fmt.Fprintf(&sb, "\tif len(s%d) > 0 {\n\t\tprintln(\"h\", %s)\n\t}\n", i, c11ProbeExpr(h.Elem, fmt.Sprintf("s%d", i)))
+		for i := 0; i < h.NVars+h.NRows; i++ {
+			nm := c11Name(h, i)
+			fmt.Fprintf(&sb, "\tprintln(\"s%d\", %s, len(%s), %s == nil)\n", i, nm, nm, nm)
+			fmt.Fprintf(&sb, "\tif len(%s) > 0 {\n\t\tprintln(\"h\", %s)\n\t}\n", nm, c11ProbeExpr(h.Elem, nm))
 		}
 	}
 	sb.WriteString("\tprintln(\"done\")\n}\nhist(0)\n")
